@@ -4,12 +4,14 @@ import Driver.LocationOps
 import Driver.StageOps
 import Driver.DamageOps
 import Driver.SerialOps
+import Driver.ShardOps
 open Lean Ts.Drv
 
 namespace Ts.Drv
 
 /-- All registered op handlers; first match wins. -/
 def handlers : List Handler := [
+  ShardOps.handle,
   SerialOps.handle,
   StorageOps.handle,
   LocationOps.handle,
